@@ -64,6 +64,13 @@ where
         let pu = p as u64;
         let name = format!("{}@GF({})", spec.name(), p);
         let n = t.input_len();
+        // a clone denotes the same circuit: the verifier side below runs on a clone of the prover's instance
+        let tv = t.clone();
+        let lens = |x: &T| [x.input_len(), x.proof_len(), x.verifier_len(), x.joint_rand_len(), x.prove_rand_len(), x.query_rand_len(), x.output_len()];
+        if tv != t || lens(&tv) != lens(&t) {
+            run.fail(&format!("{name}/clone"), &format!("{name}: a clone of the circuit differs from the original (lengths {:?} vs {:?})", lens(&tv), lens(&t)), json!({"instance": name}));
+            return;
+        }
         // declared lengths against the spec formulas
         let pl = spec.wire_poly_len();
         let arity = if spec.chunk() > 0 { 2 * spec.chunk() } else if matches!(spec, Spec::Count) { 2 } else { 1 };
@@ -133,7 +140,7 @@ where
                             // refusal is specified per gadget point (the last num_gadgets entries)
                             let ng = gadget_pls.len();
                             let expect_refused = (0..ng).any(|g| modpow(qr[qr.len() - ng + g], gadget_pls[g] as u128, p) == 1);
-                            let res = catch(|| t.query(&xf, &proof, &qrf, &jrf, 1));
+                            let res = catch(|| tv.query(&xf, &proof, &qrf, &jrf, 1));
                             evals.fetch_add(1, Ordering::Relaxed);
                             let case = || json!({"spec": spec.name(), "p": p.to_string(), "x": x, "jr": jr, "pr": pr, "qr": qr});
                             let verifier = match res {
@@ -159,7 +166,7 @@ where
                                 run.fail(&format!("small/{name}/verifier_len"), &format!("{name}: verifier has {} elements, declared {}", verifier.len(), t.verifier_len()), case());
                                 return;
                             }
-                            let d = match catch(|| t.decide(&verifier)) {
+                            let d = match catch(|| tv.decide(&verifier)) {
                                 Ok(Ok(d)) => d,
                                 other => {
                                     run.fail(&format!("small/{name}/decide_err"), &format!("{name}: decide failed: {:?}", other.map(|r| r.map_err(|e| e.to_string()))), case());
